@@ -97,6 +97,10 @@ def writeFields (q : Str → Bool) : List Str → Str
 def writeRows (q : Str → Bool) (rows : List (List Str)) : Str :=
   rows.flatMap fun r => writeFields q r ++ [10]
 
+/-- the same file with CR LF line ends (what spreadsheet programs write on Windows) -/
+def writeRowsCRLF (q : Str → Bool) (rows : List (List Str)) : Str :=
+  rows.flatMap fun r => writeFields q r ++ [13, 10]
+
 /-- the rows handed on for a written grid. `bareBlank` = the writer leaves a blank cell bare, so that the record `[[]]`
 (one blank cell) is an empty line: it comes back as a row without cells if a record follows, and not at all if
 none does (`pending` counts the empty lines since the last record) -/
